@@ -172,7 +172,9 @@ func VerifC06Sequence() {
 			m := w.ref[vsymChoice("mmMsg", 2)]
 			bs := vsymChoice("mmBoxes", 3)
 			seen, flagged := vsymBool("mmSeen"), vsymBool("mmFlagged")
-			mk = func() imap.Update { return imap.NewMessageMailboxesUpdated(m.remote, boxSets[bs], c6FlagSet(seen, flagged)) }
+			mk = func() imap.Update {
+				return imap.NewMessageMailboxesUpdated(m.remote, boxSets[bs], c6FlagSet(seen, flagged))
+			}
 			valid = m.exists
 			restates = m.inA == (bs != 1) && m.inB == (bs != 0) && m.seen == seen && m.flagged == flagged
 			effect = func() { m.inA, m.inB, m.seen, m.flagged = bs != 1, bs != 0, seen, flagged }
